@@ -162,9 +162,9 @@ def differs(a, b, conds):
     if isinstance(a, tuple) != isinstance(b, tuple): return True
     return a != b
 
-def deser_job(prog, entry, deadline, seed=0, depth=2, symbolic_numbers=False):
+def deser_job(prog, entry, deadline, seed=0, depth=2, symbolic_numbers=False, A=2):
     eng = Engine(prog); eng.deadline = deadline; S = Summary(); XP.init_decls(prog)
-    spec = SY.DocSpec(depth=depth, A=2, keys=('a', 'b'), strs=('', 'a'), nums=None if symbolic_numbers else [0, -1, 1.5])
+    spec = SY.DocSpec(depth=depth, A=A, keys=('a', 'b')[:max(A, 1)], strs=('', 'a'), nums=None if symbolic_numbers else [0, -1, 1.5])
     def body(ex):
         v = SY.sym_variable(ex, spec); ex.u_v = v
         want = {'any': lambda: ev_any(ex, v), 'option': lambda: (('none',) if MM.deref_all(v).variant == 'Null' else ('some', ev_any(ex, v))), 'enum': lambda: ev_enum(ex, v), 'newtype': lambda: ('newtype', ev_any(ex, v))}
